@@ -20,7 +20,7 @@ def hx(b):
     return bytes(b).hex() if len(b) else "-"
 
 
-def gen_actions(rng, mode, ns, rounds, q1, q2, mq, heavy):
+def gen_actions(rng, mode, ns, rounds, q1, q2, mq, heavy, tests=False):
     """application schedule; returns (actions, info) with info[asdu bytes] = (direction, slave index, class, sequence number)"""
     acts, info, ident = {}, {}, 1
     last = int(rounds * 0.55)
@@ -44,7 +44,12 @@ def gen_actions(rng, mode, ns, rounds, q1, q2, mq, heavy):
                     a = L.asdu(ident, rng.range(2, 9), typ=45, cot=6)
                     acts.setdefault(r, []).append("msend s%d %s" % (i + 1, hx(a)))
                     info[a] = ("m2s", i, 0, ident)
+                    if tests and rng.chance(1, 2):
+                        # the application asks for a link test while (or just before / after) the command is outstanding
+                        acts.setdefault(r + rng.choice([0, 1, 1, 2]), []).append("mtest s%d" % (i + 1))
                 ident += 1
+            if tests and rng.chance(1, 25):
+                acts.setdefault(r, []).append("mtest s%d" % (i + 1))
         r += rng.range(1, 4)
     return acts, info
 
@@ -206,12 +211,17 @@ def run(ck):
         "channel model: whole frames lost / duplicated / delayed (by scheduling) on an otherwise error-free line; no reordering, no duplication of answers (unnumbered ACK)",
         "extraction: ExtrOcamlBasic only; the composition of the station step functions is OCaml code in driver/d_link.ml",
     ]
-    ck.rule = ("scripted exchanges: random application schedules (class 1 / class 2 ASDUs at every slave, commands from the master, bursts beyond the queue capacity), queue sizes 1..20, "
+    ck.rule = ("scripted exchanges: random application schedules (class 1 / class 2 ASDUs at every slave, commands from the master, link test requests of the master application around its commands, bursts beyond the queue capacity), queue sizes 1..20, "
                "1..3 slaves (unbalanced) or point-to-point (balanced), address width 1/2, single-char ACK off/on; loss: none, EVERY single frame position, double positions, bursts "
                "forcing link failure, random loss up to 30 %; non-trivial = distinct script with at least one delivery")
     ck.coq("C16")
     fix, bad, praw = L.probe()
     ck.extra["tree_variant"] = fix
+    sig = {"g_unb": "oracle:e2e:duplicate:unbalanced-test-request", "g_unb2": "oracle:e2e:stuck:unbalanced-test-request",
+           "g_bal": "oracle:e2e:lost:balanced-test-request", "h": "oracle:e2e:resume:negative-answer", "i": "oracle:e2e:duplicate:out-of-step-after-unserved-frame"}
+    for k, what in bad.items():
+        if k in sig:
+            ck.fail("input", sig[k], what, {"script": L.PROBES[k], "observed": praw[k]["out"], "harness": "h_ll"})
     hcs = L.h_cs101()
     try:
         mexe = L.model()
@@ -229,7 +239,7 @@ def run(ck):
         if ci < 4:
             q1, q2, mq = (1, 2, 1) if ci < 2 else (3, 1, 2)
         rounds, tick = 110, 70
-        acts, info = gen_actions(rng, mode, ns, rounds, q1, q2, mq, heavy=True)
+        acts, info = gen_actions(rng, mode, ns, rounds, q1, q2, mq, heavy=True, tests=(ci % 4 >= 2))
         tag = "c%d.%s.%d.%d.%d" % (ci, mode, al, sc, ns)
         drain = 3 * ns * (q1 + q2 + mq + 2) + 20      # rounds needed to empty full queues after the last disturbance
         base = L.exchange(mode, al, sc, ns, acts, rounds + drain, tick, q1=q1, q2=q2, mq=mq, tls=400)
